@@ -149,8 +149,8 @@ SPECS = [
 ]
 GROUPS = {'binary': cs.binary_group(widths=(16, 32, 64)) + [cs.byte_swap_float(32), cs.byte_swap_float(64), cs.big_to_native_float(32), cs.big_to_native_float(64)]}
 SITE_CHECKS = [
-    {'file': P, 'pattern': r'stringref_map_stack_\.back\(\)\.emplace_back\(mapped_string\(', 'count': 3, 'props': ['C07', 'C05'],
-     'what': 'the stringref table is filled at three sites only, each storing a text string or a byte string (the only entry types read_item has to expect)'},
+    {'file': P, 'pattern': r'stringref_map_stack_\.back\(\)\.emplace_back\(mapped_string\(', 'count': 4, 'props': ['C07', 'C05'],
+     'what': 'the stringref table is filled at four sites only, each storing a text string or a byte string (the only entry types read_item has to expect)'},
 ]
 HARNESSES = [
     Harness('read_tags', 'h_read_tags', enforce='read_tags', replace=['read_uint64'], loop_contracts=True, method='LC', props=['C07', 'C05'], expect_classes={'loop_invariant_step': 1}),
